@@ -181,15 +181,27 @@ theorem lazy_first_call_progress (u : W64) (s : State) (f : Nat) (pub a : W64)
   unfold FuncSt.genCode
   split <;> simp [FuncSt.redirectTo, ha]
 
-/-- the first call through a bb wrapper retargets the public address to the first bb thunk;
-no whole-function machine code appears -/
+/-- the first call through a bb wrapper of a function without machine code retargets the public
+address to the first bb thunk; no whole-function machine code appears -/
 theorem bb_first_call_progress (u : W64) (s : State) (f : Nat) (pub a : W64)
-    (ha : addr s f = some a) (hk : (s f).kind = .bbWrapper) :
+    (ha : addr s f = some a) (hk : (s f).kind = .bbWrapper) (hm : (s f).machineCode = none) :
     target (step u s (.firstCall f pub)) f = some pub ∧
     (step u s (.firstCall f pub) f).kind = .bbThunk ∧
-    (step u s (.firstCall f pub) f).machineCode = (s f).machineCode := by
+    (step u s (.firstCall f pub) f).machineCode = none := by
   unfold addr at ha
-  simp [target, step, stepF, hk, FuncSt.genBB, FuncSt.redirectTo, ha, redirect_target]
+  simp [target, step, stepF, hk, hm, FuncSt.genBB, FuncSt.redirectTo, ha, redirect_target]
+
+/-- **relink_bb_after_gen**: the first call through a bb wrapper of a function that already has
+whole-function machine code (generated earlier, then linked again under the lazy-bb interface)
+leads to that code; nothing is generated. -/
+theorem relink_bb_after_gen (u : W64) (s : State) (f : Nat) (pub a c : W64)
+    (ha : addr s f = some a) (hk : (s f).kind = .bbWrapper) (hm : (s f).machineCode = some c) :
+    target (step u s (.firstCall f pub)) f = some c ∧
+    (step u s (.firstCall f pub) f).kind = .code ∧
+    (step u s (.firstCall f pub) f).machineCode = some c ∧
+    (step u s (.firstCall f pub) f).bbData = (s f).bbData := by
+  unfold addr at ha
+  simp [target, step, stepF, hk, hm, FuncSt.genBB, FuncSt.redirectTo, ha, redirect_target]
 
 /-- a second call changes nothing: only the first call through a wrapper has an effect -/
 theorem second_call_no_effect (u : W64) (s : State) (f : Nat) (p p' a : W64)
@@ -204,7 +216,8 @@ theorem second_call_no_effect (u : W64) (s : State) (f : Nat) (p p' a : W64)
         ((stepF u (.firstCall g p) g (s g)).kind = .shim →
           (stepF u (.firstCall g p) g (s g)).interpData = true) := by
       simp only [stepF, if_true]
-      cases hk : (s g).kind <;> simp [hk, genCode_kind _ _ _ ha, genBB_kind _ _ _ ha]
+      cases hk : (s g).kind <;> simp [hk, genCode_kind _ _ _ ha]
+      rcases genBB_kind (s g) p a ha with h | h <;> simp [h]
     simp only [step]
     generalize stepF u (.firstCall g p) g (s g) = x at h1 ⊢
     simp only [stepF, if_true]
